@@ -214,3 +214,25 @@ def run_once(run, choices):
     ctx = Ctx(tuple(choices), None)
     obs, violations = run(ctx)
     return ctx, obs, violations
+
+
+def count_leaves(run, root=()):
+    """Independent count of the executions below *root* (unbounded
+    deviations): plain recursion over "run this prefix, look at the first
+    decision after it".  Shares no bookkeeping with ``explore`` and is used as
+    its self-check where no closed form fits the implementation at hand."""
+
+    def below(prefix):
+        ctx = Ctx(tuple(prefix), None, len(root))
+        try:
+            run(ctx)
+        except RootOutOfRange:
+            return 0
+        if len(ctx.choices) <= len(prefix):
+            if len(ctx.choices) < len(prefix) and any(prefix[len(ctx.choices):]):
+                return 0  # judged in the first sibling only
+            return 1
+        n = ctx.points[len(prefix)][1]
+        return sum(below(tuple(prefix) + (alt,)) for alt in range(n))
+
+    return below(tuple(root))
